@@ -5,7 +5,7 @@
 From stdpp Require Import gmap list.
 From Coq Require Import NArith ZArith.
 From VFS Require Import Path.Str Core.Types Core.Prog Core.Calls Base.MemFS Base.Handles
-  Base.PhysFS Base.Embedded Base.Store Layer.VfsPath Layer.Altroot Layer.Overlay Layer.Config Layer.Utf8.
+  Base.PhysFS Base.Embedded Base.Store Layer.VfsPath Layer.Altroot Layer.Overlay Layer.Config Layer.Utf8 Layer.Async.
 
 (** ** the string layer instantiated with bytes *)
 Definition jn (base arg : list N) : option (list N) := join_internal N.eqb slashN dotN base arg.
@@ -324,6 +324,66 @@ Section Run.
         let '(rs', r) := run_op idx o rs0 in
         (r, reverse (st_log (rs_store rs'))) :: run_ops (S idx) ops' rs'
     end.
+
+  (** ** the same case through the async port: every future is driven by the executor under an
+      oracle (which calls answer Pending first), walk_dir through the stream state machine *)
+  Variable orc : nat -> list bool.
+
+  Definition exec_async {R} (o : list bool) (m : bprog R) (s : store) : store * R :=
+    match drive bhandler (S (length o)) m o s with
+    | Some x => x
+    | None => run bhandler m s          (* unreachable: Proofs/AsyncProofs.v drive_is_run *)
+    end.
+
+  Definition open_op_async (idx : nat) (rs : rstate) (ps : pathspec)
+      (f : vfs -> path -> bprog (res hid)) : rstate * outcome :=
+    match locate ps with
+    | Ok (v, s) =>
+        let '(st, r) := exec_async (orc idx) (f v (prs s)) (rs_store rs) in
+        match r with
+        | Ok h => (mkRS st ((idx, h) :: rs_regs rs), Ok VUnit)
+        | Err e => (mkRS st (rs_regs rs), Err e)
+        | Panic => (mkRS st (rs_regs rs), Panic)
+        end
+    | Err e => (rs, Err e)
+    | Panic => (rs, Panic)
+    end.
+
+  Definition run_op_async (idx : nat) (o : op) (rs : rstate) : rstate * outcome :=
+    match o with
+    | OCreateFile ps => open_op_async idx rs ps vp_create_file
+    | OAppendFile ps => open_op_async idx rs ps vp_append_file
+    | OOpenFile ps => open_op_async idx rs ps vp_open_file
+    | OWalkDir ps =>
+        match locate ps with
+        | Ok (v, s) =>
+            let '(st, r) := exec_async (orc idx) (vp_walk_dir v (prs s)) (rs_store rs) in
+            match r with
+            | Ok w =>
+                let '(st2, items) := acollect bhandler v fuel (aw_start (w_inner w)) (orc (S idx)) st [] in
+                (mkRS st2 (rs_regs rs), res_map VItems items)
+            | Err e => (mkRS st (rs_regs rs), Err e)
+            | Panic => (mkRS st (rs_regs rs), Panic)
+            end
+        | Err e => (rs, Err e)
+        | Panic => (rs, Panic)
+        end
+    | OHRead _ _ | OHSeek _ _ | OHWrite _ _ | OHFlush _ | OHDrop _ | OHReadToEnd _
+    | OSetFault _ _ | ONop | OClearLog => run_op idx o rs
+    | _ =>
+        let '(st, r) := exec_async (orc idx) (op_prog o) (rs_store rs) in
+        (mkRS st (rs_regs rs), r)
+    end.
+
+  Fixpoint run_ops_async (idx : nat) (ops : list op) (rs : rstate) : list (outcome * list (nat * fscall)) :=
+    match ops with
+    | [] => []
+    | o :: ops' =>
+        let st0 := rs_store rs in
+        let rs0 := mkRS (mkStore (st_bases st0) (st_handles st0) [] (st_fault st0)) (rs_regs rs) in
+        let '(rs', r) := run_op_async idx o rs0 in
+        (r, reverse (st_log (rs_store rs'))) :: run_ops_async (S idx) ops' rs'
+    end.
 End Run.
 
 Inductive basekind := KMem | KPhys | KEmb (files : list (path * bytes)) | KPhysDir (files : list (path * bytes)).
@@ -340,3 +400,6 @@ Record case := mkCase { c_bases : list basekind; c_cfg : list fsref; c_ops : lis
 
 Definition run_case (fuel : nat) (c : case) : list (outcome * list (nat * fscall)) :=
   run_ops (c_cfg c) fuel 0 (c_ops c) (mkRS (init_store (c_bases c)) []).
+
+Definition run_case_async (fuel : nat) (orc : nat -> list bool) (c : case) : list (outcome * list (nat * fscall)) :=
+  run_ops_async (c_cfg c) fuel orc 0 (c_ops c) (mkRS (init_store (c_bases c)) []).
